@@ -118,6 +118,8 @@ def check(run, repo, world):
 
     # ---- SetEventFilters ---------------------------------------------------
     m, fn, _ = world.func(SEQ + ".SetEventFilters")
+    fn = normalise(fn, world, SEQ, primitives=("check_bad_rsp",),
+                   aliases="params")
     F = SEQ + ".SetEventFilters"
     cfg = gen_cfg(fn, F)
     ys = yields_of(cfg, world, SEQ)
@@ -127,6 +129,8 @@ def check(run, repo, world):
 
     # ---- QueryEventFilters -------------------------------------------------
     m, fn, _ = world.func(SEQ + ".QueryEventFilters")
+    fn = normalise(fn, world, SEQ, primitives=("check_bad_rsp",),
+                   aliases="params")
     F = SEQ + ".QueryEventFilters"
     cfg = gen_cfg(fn, F)
     ys = yields_of(cfg, world, SEQ)
@@ -236,40 +240,89 @@ def _check_filters(run, world, mod, F, cfg, ys, fn, setter):
         by.setdefault(_short(_q(y)), []).append(y)
     want_guard = {"DTR1": 8, "DTR2": 16, "QueryEventFilterM": 8,
                   "QueryEventFilterH": 16}
+    # the condition under which each command is sent, as a formula over
+    # W = <filter>.dali_width() and isinstance(<filter>, InstanceEventFilter)
+    # (path summaries with locals substituted; other tests projected away)
+    from .. import paths, pred
+
+    def lin(e):
+        if isinstance(e, ast.Constant) and type(e.value) is int:
+            return pred.Lin.const(e.value)
+        if isinstance(e, ast.Call) and isinstance(e.func, ast.Attribute) \
+                and e.func.attr == "dali_width" and not e.args and \
+                not e.keywords:
+            return pred.Lin.sym("W")
+        return None
+
+    def prop(e):
+        if isinstance(e, ast.Call) and unparse(e.func) == "isinstance" and \
+                len(e.args) == 2:
+            c = world.resolve_class(SEQ, e.args[1])
+            if c is not None and c.name == "InstanceEventFilter":
+                return "is-filter(%s)" % unparse(e.args[0])
+        return None
+    P = pred.Parser(lin, prop)
+    try:
+        summ = paths.summaries(fn, max_paths=20000)
+    except paths.Unsupported as e:
+        raise AnalysisError("R-DTRSYM: %s is not loop-free after "
+                            "normalisation: %s" % (F, e))
+    sent = {}
+    for pth in summ:
+        for eff in pth.effects:
+            if eff[0] != "yield" or not isinstance(eff[1], ast.Call):
+                continue
+            c = world.resolve_class(SEQ, eff[1].func)
+            if c is None:
+                continue
+            nm = _CANON.get(c.name, c.name)
+            trees = []
+            for (t, b_) in eff[2]:
+                try:
+                    tr = P.tree(t)
+                except pred.Unrecognised:
+                    continue
+                trees.append(tr if b_ else ("not", tr))
+            d = pred.dnf(("and", trees))
+            d = frozenset(frozenset(
+                a for a in c_ if a[0] == "le" or a[1].startswith(
+                    "is-filter(")) for c_ in d)
+            sent[nm] = pred.union(sent.get(nm, frozenset()), d)
+    fparam = fn.args.args[2].arg
+    isf = ("atom", ("p", "is-filter(%s)" % fparam, True))
     guards = {}
     for name, k in want_guard.items():
-        for y in by.get(name, []):
-            gs = _guard_expr(y.node)
-            if not gs:
-                run.ob("R-DTRSYM", "%s#%s-guard" % (F, name), False,
-                       "%s is issued unconditionally; it must depend on the "
-                       "filter width" % name, where(mod, y.node))
-                continue
-            test, in_body = gs[0]
-            g = _norm_width_guard(test, cfg)
-            guards[name] = g
-            alts = {a for a in g if a != ("const", False)}
-            ok = in_body and alts == {("width>", k)}
-            bc = [a for a in g if a[0] == "boolcmp"]
-            msg = "guard of %s is `%s` = %s, expected dali_width() > %d" % (
-                name, unparse(test), sorted(g), k)
-            if bc:
-                msg = ("guard of %s compares a boolean-valued variable with "
-                       "an integer (`%s`): it is constantly false, so %s is "
-                       "never issued for wide filters" % (
-                           name, unparse(test), name))
-            run.ob("R-DTRSYM", "%s#%s-guard" % (F, name), ok, msg,
-                   where(mod, y.node),
-                   sample={"rule": "R-DTRSYM", "yield": unparse(y.expr),
-                           "guard": unparse(test), "normalised": sorted(g)})
+        if name not in sent:
+            continue
+        wide = ("atom", ("le", "0", "W", k + 1))
+        want = pred.dnf(("and", [isf, wide]) if setter else wide)
+        got = sent[name]
+        guards[name] = got
+        eq, wit = pred.equivalent(got, want)
+        ys_ = by.get(name, [])
+        run.ob("R-DTRSYM", "%s#%s-guard" % (F, name), eq,
+               "%s is sent when %s; it must be sent exactly when %s "
+               "(byte %d of the filter exists)" % (
+                   name, pred.show(got) or "always", pred.show(want),
+                   k // 8), where(mod, ys_[0].node) if ys_ else where(mod, fn),
+               sample={"rule": "R-DTRSYM", "command": name,
+                       "sent_when": pred.show(got) or "always"})
     if setter:
-        for a, b in (("DTR1", "QueryEventFilterM"),
-                     ("DTR2", "QueryEventFilterH")):
-            if a in guards and b in guards:
-                run.ob("R-DTRSYM", "%s#%s~%s" % (F, a, b),
-                       guards[a] == guards[b],
-                       "load guard of %s %s differs from read-back guard of "
-                       "%s %s" % (a, sorted(guards[a]), b, sorted(guards[b])),
+        for a_, b_ in (("DTR1", "QueryEventFilterM"),
+                       ("DTR2", "QueryEventFilterH")):
+            if a_ in guards and b_ in guards:
+                run.ob("R-DTRSYM", "%s#%s~%s" % (F, a_, b_),
+                       pred.equivalent(guards[a_], guards[b_])[0],
+                       "load guard of %s (%s) differs from read-back guard "
+                       "of %s (%s)" % (a_, pred.show(guards[a_]), b_,
+                                       pred.show(guards[b_])),
+                       where(mod, fn))
+        for name in ("DTR0", "SetEventFilter", "QueryEventFilterL"):
+            if name in sent:
+                eq = pred.equivalent(sent[name], pred.dnf(("and", [])))[0]
+                run.ob("R-DTRSYM", "%s#%s-unconditional" % (F, name), eq,
+                       "%s must not depend on the filter width; it is sent "
+                       "when %s" % (name, pred.show(sent[name])),
                        where(mod, fn))
         for name in ("DTR0", "DTR1", "DTR2", "SetEventFilter"):
             run.ob("R-DTRSYM", "%s#has-%s" % (F, name), name in by,
@@ -1201,6 +1254,7 @@ def _check_bad_rsp(run, world, mod):
     run.rule("R-BADRSP", "check_bad_rsp classifies None, framing errors, "
              "marker strings and raising .value as bad")
     m, fn, _ = world.func(HLP + ".check_bad_rsp")
+    fn = normalise(fn, world, HLP, aliases=False)
     F = HLP + ".check_bad_rsp"
     from ..cfg import CFG, explicit_raise_only
     cfg = CFG(fn, may_raise=explicit_raise_only, name=F)
